@@ -39,6 +39,8 @@ type Check struct {
 	// register probe lints into the global registry and must not disturb
 	// the other workers' view of it).
 	Solo func(c *Ctx)
+	// WorkerEnv adds environment variables for worker processes (e.g. GORACE).
+	WorkerEnv func(c *Ctx, work string) []string
 	// Aux are named auxiliary modes run as their own process (`-aux name`),
 	// e.g. the strace'd I/O phase of C05; they write a Report to -out.
 	Aux map[string]func(c *Ctx)
@@ -510,6 +512,9 @@ func fanOut(ch *Check, c *Ctx, work string, procs int, merged *Report) []crash {
 			}
 			cmd.Stdout, cmd.Stderr = logf, logf
 			cmd.Env = append(os.Environ(), "GOMAXPROCS=2")
+			if ch.WorkerEnv != nil {
+				cmd.Env = append(cmd.Env, ch.WorkerEnv(c, work)...)
+			}
 			resc <- res{i, cmd.Run()}
 		}(i)
 	}
